@@ -37,6 +37,8 @@ var c07SizeTemplates = [][]string{
 	{"SADD", "K", "x", "y", "z", "u", "v", "w", "q", "r"}, {"SREM", "K", "a"}, {"SMOVE", "K", "sother", "b"}, {"SMOVE", "K", "K", "a"}, {"SMOVE", "sother", "K", "b"},
 	{"SORT", "K", "ALPHA", "STORE", "K"}, {"SUNIONSTORE", "K", "K", "sother"}, {"SDIFFSTORE", "K", "K", "nokey"}, {"SINTERSTORE", "K", "K", "K"}, {"BITOP", "OR", "K", "K", "other"}, {"BITOP", "NOT", "K", "K"},
 	{"COPY", "other", "K", "REPLACE"}, {"RENAME", "other", "K"}, {"SET", "K", "v", "GET"}, {"SET", "K", "v", "KEEPTTL", "GET"}, {"SET", "K", "v", "XX", "KEEPTTL"}, {"SET", "K", "v", "NX", "KEEPTTL"}, {"GETEX", "K", "PERSIST"},
+	// SORT reads other keys through its BY and GET patterns (wt_<element>): expired ones must count as missing
+	{"SORT", "K", "BY", "wt_*"}, {"SORT", "K", "BY", "wt_*", "GET", "wt_*", "GET", "#"}, {"SORT", "K", "BY", "nosort", "GET", "wt_*"}, {"SORT", "K", "ALPHA", "BY", "wt_*", "DESC", "STORE", "dst"},
 	{"MSETNX", "fresh", "w", "K", "v"}, {"RENAMENX", "other", "K"}, {"COPY", "other", "K"}, {"LPUSHX", "K", "x"}, {"RPUSHX", "K", "x", "y"},
 }
 
@@ -59,7 +61,7 @@ func c07PhaseMatrix(r *verdict.Run) {
 			}
 		}
 	}
-	universe := []string{"tk", "other", "lother", "sother", "dst", "fresh", "nokey"}
+	universe := []string{"tk", "other", "lother", "sother", "dst", "fresh", "nokey", "wt_a", "wt_b", "wt_c"}
 	nsh := 16
 	parallel(nsh, 16, func(shard int) {
 		c, err := startChild(false)
@@ -85,12 +87,15 @@ func c07PhaseMatrix(r *verdict.Run) {
 			}
 			d.monitor = "phase"
 			setup := append(append([][]string{}, c06Setup...), c06TypeSetup(ce.typ)...)
+			setup = append(setup, []string{"MSET", "wt_a", "3", "wt_b", "1", "wt_c", "2"}) // weights of the elements a, b, c
 			switch ce.phase {
 			case "ttl-future":
 				setup = append(setup, []string{"PEXPIRE", "tk", "100000"})
 			case "expired-stored":
 				setup = append(setup, c07ExpireNow("tk", i)...)
 			case "operands-expired":
+				setup = append(setup, c07ExpireNow("wt_a", i)...)
+				setup = append(setup, c07ExpireNow("wt_c", i+1)...)
 				setup = append(setup, c07ExpireNow("other", i)...)
 				setup = append(setup, c07ExpireNow("lother", i+1)...)
 				setup = append(setup, c07ExpireNow("sother", i+2)...)
